@@ -153,3 +153,17 @@ theorem C20_abs_after_relative_witness :
 example : (EMachine.run {} (run {} [.addHook (.extrude (1 / 2)), .move false { x := some (.fin 3), y := some (.fin 4) } [] 5,
     .move false { x := some (.fin 3), y := some (.fin 0) } [] 4, .setAxis {} [("E", .fin 0)],
     .move false { x := some (.fin 0), y := some (.fin 0) } [] 3]).2).epos = 3 / 2 := by decide +kernel
+
+/-- **Hook arguments, absolute-bypass linear move**: in either distance mode the hooks see the absolute
+    target (the requested coordinates over the tracked position), once per hook. -/
+theorem C20_hook_calls_bypass (b : B) (p : VPt) (ps : VParams) (h : Rat)
+    (hok : (step b (.moveAbs false p ps h)).out = .ok) :
+    ∃ req, p.fin? = some req ∧
+      (step b (.moveAbs false p ps h)).calls = b.hooks.map (fun _ => ⟨b.axes.resolve, b.axes.resolve.replace req⟩) ∧
+      (step b (.moveAbs false p ps h)).b.axes = b.axes.replace req := by
+  simp only [step, stepMoveAbs, reject, accept] at hok ⊢
+  split at hok
+  · rename_i req ps' hreq hps
+    refine ⟨req, hreq, ?_⟩
+    (repeat' split at hok) <;> simp_all <;> (repeat' split) <;> simp_all [B.commitAxes]
+  · simp at hok
